@@ -295,6 +295,29 @@ FRAME_ROUTES = [
 ]
 
 
+MUST_REJECT = [
+    # the run-time format mini-language reaches attributes the expression check cannot see,
+    # also when the bound method is not called directly but handed to a higher-order builtin
+    "max([a], key='{0.__class__.__mro__}'.format)",
+    "min([a], key='{0:{0.__class__}}'.format)",
+    "sorted([a], key='{0.__class__}'.format)",
+    "sorted([{'k': a}], key='{k.__class__}'.format_map)",
+    "[f := '{0.__class__}'.format, f(a)]",
+    "a.__class__", "a.__class__.__mro__", "len.__self__", "(1).__class__", "a.__reduce__",
+]
+
+
+def must_reject(rc):
+    install()
+    from tatsu.util.safeeval import is_eval_safe, safe_builtins
+    for expr in MUST_REJECT:
+        ctx = dict(safe_builtins())
+        ctx.update({'a': 't'})
+        rc.add('evaluations')
+        if is_eval_safe(expr, ctx):
+            rc.violation('expression-reaching-dunder-attributes-accepted', expression=expr)
+
+
 def dangerous(v, depth=0):
     """Frames, code objects, modules, or a namespace dictionary (frame locals/globals) inside a value."""
     import types
@@ -379,6 +402,7 @@ def run(rc):
     rc.coverage['histories'] = len(hists)
     install()
     frame_routes(rc)
+    must_reject(rc)
     attribute_graph(rc)
     c = rc.total.counts
     rc.rule = (f'every name in vars(builtins) ({len(names)}) x {len(ARGS)} argument tuples x 17 syntactic routes (direct call, f-string field, nested '
